@@ -38,15 +38,88 @@ def stream_state_test(f, n):
 
 
 def flush_event(f, n):
+    return flush_kind(f, n) is not None
+
+
+def flush_kind(f, n, wrappers=None):
+    """(kind, object node, tested) when n pushes buffered data of an ostream to its destination:
+    kind 'flush' | 'close'; tested = the same call also returns the stream's state (wrapper helpers)."""
     if n["k"] == "CXXMemberCallExpr":
         d = f.decl(n)
         if d is not None and d["n"] in ("flush", "close"):
-            return is_ostream(f.type(member_call_object(n)))
+            o = member_call_object(n)
+            if is_ostream(f.type(o)):
+                return (d["n"], o, False)
     if n["k"] == "CXXOperatorCallExpr" and n.get("op") == "<<":
         a = strip_casts(call_args(n)[1])
         if a is not None and a["k"] == "DeclRefExpr" and (f.decl(a) or {}).get("n") in ("flush", "endl"):
-            return True
-    return False
+            return ("flush", call_args(n)[0], False)
+    if wrappers and n["k"] == "CallExpr":
+        d = f.decl(n)
+        w = wrappers.get((d or {}).get("u")) if d else None
+        if w is not None:
+            args = call_args(n)
+            if w["param"] < len(args):
+                par = f.parent(n)
+                used = par is not None and par["k"] not in ("CompoundStmt", "ExprWithCleanups")
+                return (w["kind"], args[w["param"]], w["tested"] and used)
+    return None
+
+
+def flush_wrappers(P, files):
+    """{function usr: {param, kind, tested}}: helpers that, on every path to every return, flush/close the
+    ostream they receive by reference (and possibly return its state) - the repo's way of factoring
+    `out.flush(); return out.good();`.  Computed from the helpers' own CFGs, not from their names."""
+    out = {}
+    for g in P.all_funcs():
+        if g.dep or g.cfg() is None or not g.relfile.endswith(files):
+            continue
+        for idx, prm in enumerate(g.params()):
+            t = g.unit.type(prm.get("t"))
+            if not is_ostream(t):
+                continue
+            pd = g.r["params"][idx]
+
+            def on_param(o):
+                o = strip_casts(o)
+                return o is not None and o["k"] == "DeclRefExpr" and o.get("d") == pd
+
+            def transfer(st, n, blk):
+                k = flush_kind(g, n)
+                if k and on_param(k[1]):
+                    return st | {k[0]}
+                return st
+            ins, _ = forward(g.cfg(), frozenset(), transfer, join=lambda a, b: a & b)
+            rets = [n for n in g.nodes() if n["k"] == "ReturnStmt"]
+            if not rets:
+                continue
+            kinds, tested = None, True
+            for r in rets:
+                st = state_before(g.cfg(), ins, transfer, r)
+                if st is TOP:
+                    continue
+                kinds = set(st) if kinds is None else kinds & set(st)
+                v = r["c"][0] if r.get("c") else None
+                tested = tested and v is not None and any(
+                    stream_state_test(g, x) and on_param(member_call_object(x) if x["k"] == "CXXMemberCallExpr"
+                                                         else call_args(x)[0]) for x in walk(v))
+            if kinds:
+                out[g.u] = {"param": idx, "kind": "close" if "close" in kinds else "flush", "tested": tested,
+                            "name": short(g)}
+    return out
+
+
+def owns_file(f, o):
+    """o denotes a local std::ofstream / std::fstream object (not a reference): the function owns the file
+    and the only place a failing close(2) can be seen is an explicit close() before the state test"""
+    o = strip_casts(o)
+    if o is None or o["k"] != "DeclRefExpr":
+        return False
+    d = f.decl(o) or {}
+    if d.get("k") != "Var" or d.get("st") != "local":
+        return False
+    t = f.unit.type(d.get("t"))
+    return t is not None and not t.get("ref") and ("basic_ofstream<char" in t["c"] or "basic_fstream<char" in t["c"])
 
 
 def writer_entry_points(P):
@@ -103,6 +176,10 @@ def _may_have_written(f, ret):
 
 def check_W2_W3(ctx, P, tool_files=("tools/abidw.cc", "tools/abilint.cc")):
     n_sites = 0
+    wrappers = flush_wrappers(P, tool_files)
+    for w in wrappers.values():
+        ctx.note("R-WRITERES/W3: %s(...) summarised as %s%s of its stream parameter #%d on every path" % (
+            w["name"], w["kind"], " + state test" if w["tested"] else "", w["param"]))
     for f in sorted(P.all_funcs(), key=lambda x: (x.file, x.l0)):
         if f.dep or f.cfg() is None or not f.relfile.endswith(tool_files):
             continue
@@ -138,7 +215,7 @@ def check_W2_W3(ctx, P, tool_files=("tools/abidw.cc", "tools/abilint.cc")):
                    "the writer's result flows into a condition / the return value" if used and flows else
                    "the writer's result is discarded: a failed write cannot influence the exit status")
             # ---- W3: flush/close then stream test before any success return
-            bad = _w3(f, cfg, n)
+            bad = _w3(f, cfg, n, wrappers)
             ctx.ob("R-WRITERES/W3", ent + " followed by flush and stream test", bad is None, f.loc(n),
                    "every path to a success return flushes/closes the stream and tests its state" if bad is None else
                    "a path from this write reaches `return %s` (%s) without %s: buffered data can fail to be "
@@ -146,7 +223,7 @@ def check_W2_W3(ctx, P, tool_files=("tools/abidw.cc", "tools/abilint.cc")):
     ctx.floor("R-WRITERES/W2", "writer call sites in abidw/abilint", n_sites, 8)
 
 
-def _w3(f, cfg, call):
+def _w3(f, cfg, call, wrappers=None):
     """returns None if ok, else (return node, return text, what is missing)"""
     w = cfg.where(call)
     if w is None:
@@ -154,14 +231,21 @@ def _w3(f, cfg, call):
     b0, i0 = w
     seen = set()
     stack = [(b0, i0 + 1, 0, frozenset())]   # phase 0: nothing, 1: flushed, 2: flushed and tested
+    only_flushed = False
     is_bool_ret = bool(f.ret_type() and f.ret_type()["c"] == "bool")
     while stack:
         b, i, ph, failed = stack.pop()
         blk = cfg.blocks[b]
         ended = False
         for e in blk.elems[i:]:
-            if ph == 0 and flush_event(f, e):
-                ph = 1
+            fk = flush_kind(f, e, wrappers) if ph < 2 else None
+            if fk is not None:
+                kind, obj, tested = fk
+                if owns_file(f, obj) and kind != "close":
+                    # flushing a file the function owns does not surface a failing close(2): not a discharge
+                    only_flushed = True
+                elif ph == 0:
+                    ph = 2 if tested else 1
             elif ph == 1 and stream_state_test(f, e):
                 ph = 2
             if e["k"] == "BinaryOperator" and e.get("op") == "=":
@@ -186,8 +270,10 @@ def _w3(f, cfg, call):
                     if any(x["k"] == "DeclRefExpr" and x.get("d") in failed for x in walk(v)):
                         failing = True
                 if ph < 2 and not failing:
-                    return (e, expr_str(f, v) if v is not None else "", "flushing the stream" if ph == 0 else
-                            "testing the stream state after the flush")
+                    return (e, expr_str(f, v) if v is not None else "",
+                            "closing the output file it owns (the stream is only flushed, so a failing close(2) happens "
+                            "in the destructor, after the exit status is decided)" if ph == 0 and only_flushed else
+                            "flushing the stream" if ph == 0 else "testing the stream state after the flush")
                 ended = True
                 break
         if ended:
@@ -207,6 +293,7 @@ def _w3(f, cfg, call):
 def check_flush(ctx, P, tool_files=("tools/abidw.cc", "tools/abilint.cc")):
     """R-FLUSH: typestate on temp_file: written -> flushed before get_path() is handed out."""
     n_sites = 0
+    wrappers = flush_wrappers(P, tool_files)
     for f in sorted(P.all_funcs(), key=lambda x: (x.file, x.l0)):
         if f.dep or f.cfg() is None or not f.relfile.endswith(tool_files):
             continue
@@ -236,14 +323,21 @@ def check_flush(ctx, P, tool_files=("tools/abidw.cc", "tools/abilint.cc")):
             # written: a writer entry point or set_ostream/create_write_context bound to the temp stream ran
             if n["k"] == "CallExpr" and (f.decl(n) or {}).get("n") in WRITERS:
                 return st - {"flushed"} | {"written"}
-            if n["k"] == "CXXMemberCallExpr" and (f.decl(n) or {}).get("n") in ("flush", "close") \
-                    and is_temp_stream(member_call_object(n)):
+            fk = flush_kind(f, n, wrappers)
+            if fk is not None and is_temp_stream(fk[1]):
                 return st | {"flushed"}
             return st
         join = lambda a, b: frozenset((a & b) | ({"written"} & (a | b)))
         ins, _ = forward(cfg, frozenset(), transfer, join=join)
         seen = {}
         for n in paths:
+            # the path is only printed in a diagnostic (cerr << ... << get_path()): nobody re-reads the file
+            par = f.parent(n)
+            while par is not None and par["k"] in ("ImplicitCastExpr", "MaterializeTemporaryExpr", "CXXBindTemporaryExpr"):
+                par = f.parent(par)
+            if par is not None and par["k"] == "CXXOperatorCallExpr" and par.get("op") == "<<" and \
+                    is_ostream(f.type(call_args(par)[0])):
+                continue
             st = state_before(cfg, ins, transfer, n)
             if st is TOP or "written" not in st:
                 continue
